@@ -652,3 +652,24 @@ def _rv_places(rv):
                 walk(y)
     walk(rv)
     return out
+
+
+def variant_edges(b, dj, type_needle, variant):
+    """CFG edges (u, v) on which some place whose enum type contains `type_needle` becomes known to hold exactly `variant`
+    (every disjunctive state on the edge says so, and not every state before the branch did)"""
+    def is_v(st, k):
+        vs = st.get(k)
+        return vs is not None and dj.variant_names(k[1], vs) == {variant}
+    out = []
+    for u in sorted(b.live_blocks):
+        if b.term(u)[0] != "switch":
+            continue
+        before = dj.states_before_stmt(u, len(b.stmts(u)))
+        for v in b.succ[u]:
+            sts = dj.states_on_edge(u, v)
+            if not sts:
+                continue
+            keys = [k for k in sts[0] if k[0] == "disc" and type_needle in (dj.disc_ty.get(k[1], "") or "")]
+            if any(all(is_v(st, k) for st in sts) and not (before and all(is_v(st, k) for st in before)) for k in keys):
+                out.append((u, v))
+    return out
